@@ -43,6 +43,10 @@ func (P *Program) verifyFunction(key string, opts VerifyOpts) (res *FnResult) {
 	c.fnKey = key
 	c.findings = opts.Findings
 	c.safetyOn = opts.Safety && !ct.NoSafety
+	if ct.Native {
+		c.sc.native = true
+		c.trust("lemma " + key + ": decided over the solvers' native string theory (strings as code-point sequences, a superset of Go's byte strings)")
+	}
 	c.safetyTags = opts.SafetyTags
 	if len(ct.Safety) > 0 {
 		c.safetyTags = ct.Safety
